@@ -13,14 +13,14 @@ import (
 // and through callbacks handed to external functions).
 
 type Effects struct {
-	P      *Program
-	S      *Specs
-	D      *Decls // only used for key naming
-	Mods   map[*ssa.Function]map[string]bool
-	PMods  map[*ssa.Function]map[int]map[string]bool // keys written on the object a parameter points to
-	bySig  map[string][]*ssa.Function // signature string -> address-taken in-repo functions
-	impls  map[string][]*ssa.Function // method name -> in-repo methods
-	allocs map[*ssa.Function]bool     // function (transitively) allocates
+	P             *Program
+	S             *Specs
+	D             *Decls // only used for key naming
+	Mods          map[*ssa.Function]map[string]bool
+	PMods         map[*ssa.Function]map[int]map[string]bool // keys written on the object a parameter points to
+	bySig         map[string][]*ssa.Function                // signature string -> address-taken in-repo functions
+	impls         map[string][]*ssa.Function                // method name -> in-repo methods
+	allocs        map[*ssa.Function]bool                    // function (transitively) allocates
 	importClosure map[*types.Package]map[*types.Package]bool
 	extMods       map[*ssa.Function]map[string]bool
 	extPMods      map[*ssa.Function]map[int]map[string]bool
